@@ -38,3 +38,23 @@ Proof.
               F13_sqrt_ok F13_sqrt_zero F13_nonsquare_mul_5 eq_refl u) as [x [y [H1 [H2 H3]]]].
   exists x, y. repeat split; [exact H1 | exact H2 | exact (H3 F13_parity_neg)].
 Qed.
+
+(* Elligator 2 on GF(13): Montgomery J = 3, K = 1 (so J/K = 3, 1/K^2 = 1, a = 5, d = 1), Z = 2 *)
+Lemma F13_nonsquare_mul_2 : forall x, x <> F13_0 -> F13_is_qr x = false -> F13_is_qr (F13_mul F13_2 x) = true.
+Proof. intros x; destruct x; vm_compute; intros H1 H2; try reflexivity; try discriminate; exfalso; apply H1; reflexivity. Qed.
+Lemma F13_qr_sq_mul : forall c x, c <> F13_0 -> F13_is_qr (F13_mul (F13_mul c c) x) = F13_is_qr x.
+Proof. intros c x; destruct c; destruct x; vm_compute; intros H; try reflexivity; exfalso; apply H; reflexivity. Qed.
+
+Definition F13_ell2 := ell2_coded F13_0 F13_1 F13_add F13_sub F13_mul F13_neg F13_inv F13_eqb F13_is_qr F13_sqrt F13_parity
+                                  F13_1 F13_3 F13_1 F13_2 F13_5 F13_1.
+
+Lemma F13_ell2_correct : forall u, exists v w,
+  F13_ell2 u = MOk (v, w) /\
+  F13_add (F13_mul F13_5 (F13_mul v v)) (F13_mul w w) =
+  F13_add F13_1 (F13_mul F13_1 (F13_mul (F13_mul v v) (F13_mul w w))).
+Proof.
+  exact (ell2_correct F13_0 F13_1 F13_add F13_sub F13_mul F13_neg F13_inv F13_div F13_eqb
+           F13_field F13_eqb_spec F13_is_qr F13_sqrt F13_parity F13_1 F13_3 F13_3 F13_1 F13_2 F13_5 F13_1
+           (F13_neq F13_1 F13_0 eq_refl) eq_refl eq_refl eq_refl eq_refl
+           F13_sqrt_ok F13_sqrt_zero F13_nonsquare_mul_2 F13_qr_sq_mul).
+Qed.
